@@ -132,30 +132,35 @@ pub(crate) static mut EKLEN: [usize; MAXE] = [0x5EED_0008; MAXE];
 pub(crate) static mut EVAL: [[u8; 1]; MAXE] = [[0xA3; 1]; MAXE];
 pub(crate) static mut OFFS_BE: [[u8; 8]; MAXB] = [[0xA4; 8]; MAXB];
 
-/// I/O accounting and fault injection
-pub(crate) struct Io {
+/// I/O accounting and fault injection: one scalar static per field (no mixed-size struct: CBMC 6.11 read inconsistent
+/// values through such structs), accessed through `t()`, a zero-sized handle whose methods read / write the statics.
+pub(crate) static mut IO_LOADS: u32 = 0xA5A5_0001;
+pub(crate) static mut IO_SEEKS: u32 = 0xA5A5_0002;
+pub(crate) static mut IO_PENDING: u32 = 0xA5A5_0003;
+pub(crate) static mut IO_CALLS: u32 = 0xA5A5_0004;
+pub(crate) static mut IO_FAIL_AT: u32 = 0xA5A5_0005;
+pub(crate) static mut IO_FAIL_KIND: u32 = 0xA5A5_0006;
+pub(crate) static mut IO_FAULTED: u32 = 0xA5A5_0007;
+pub(crate) static mut IO_PROTOCOL_OK: u32 = 0xA5A5_0008;
+
+#[derive(Clone, Copy)]
+pub(crate) struct IoView {
     pub loads: u32,
     pub seeks: u32,
-    pub pending_seeks: u32,
     pub io_calls: u32,
-    pub fail_at: u32,
-    pub fail_kind: u8,
     pub faulted: bool,
     pub protocol_ok: bool,
 }
-pub(crate) static mut IO: Io = Io {
-    loads: 0xA5A5_0001,
-    seeks: 0xA5A5_0002,
-    pending_seeks: 0xA5A5_0003,
-    io_calls: 0xA5A5_0004,
-    fail_at: 0xA5A5_0005,
-    fail_kind: 0xA6,
-    faulted: true,
-    protocol_ok: true,
-};
 
-pub(crate) fn t() -> &'static mut Io {
-    unsafe { &mut IO }
+/// snapshot of the counters (by value)
+pub(crate) fn t() -> IoView {
+    unsafe { IoView { loads: IO_LOADS, seeks: IO_SEEKS, io_calls: IO_CALLS, faulted: IO_FAULTED == 1, protocol_ok: IO_PROTOCOL_OK == 1 } }
+}
+pub(crate) fn set_fault(fail_at: u32, kind: u8) {
+    unsafe {
+        IO_FAIL_AT = fail_at;
+        IO_FAIL_KIND = kind as u32;
+    }
 }
 pub(crate) fn nblocks() -> usize {
     unsafe { NBLOCKS }
@@ -249,15 +254,16 @@ pub(crate) fn reset_tables() {
         NIDX = 0;
         NENT = 0;
     }
-    let t = t();
-    t.loads = 0;
-    t.seeks = 0;
-    t.pending_seeks = 0;
-    t.io_calls = 0;
-    t.fail_at = 0;
-    t.fail_kind = 0;
-    t.faulted = false;
-    t.protocol_ok = true;
+    unsafe {
+        IO_LOADS = 0;
+        IO_SEEKS = 0;
+        IO_PENDING = 0;
+        IO_CALLS = 0;
+        IO_FAIL_AT = 0;
+        IO_FAIL_KIND = 0;
+        IO_FAULTED = 0;
+        IO_PROTOCOL_OK = 1;
+    }
 }
 
 /// (key, value) of entry j of block b.
@@ -336,11 +342,14 @@ pub(crate) struct ModelFile {
 }
 
 fn io_event() -> io::Result<()> {
-    let t = t();
-    t.io_calls += 1;
-    if t.fail_at != 0 && t.io_calls == t.fail_at {
-        t.faulted = true;
-        let kind = match t.fail_kind {
+    unsafe {
+        IO_CALLS += 1;
+    }
+    if unsafe { IO_FAIL_AT != 0 && IO_CALLS == IO_FAIL_AT } {
+        unsafe {
+            IO_FAULTED = 1;
+        }
+        let kind = match unsafe { IO_FAIL_KIND } {
             0 => io::ErrorKind::Other,
             1 => io::ErrorKind::UnexpectedEof,
             2 => io::ErrorKind::PermissionDenied,
@@ -355,12 +364,13 @@ impl Read for ModelFile {
     /// One call per block load (from ac_block_new): hands back the current seek position.
     fn read(&mut self, buf: &mut [u8]) -> io::Result<usize> {
         io_event()?;
-        let t = t();
-        t.loads += 1;
-        if t.pending_seeks != 1 {
-            t.protocol_ok = false; // a block load must be preceded by exactly one absolute seek
+        unsafe {
+            IO_LOADS += 1;
+            if IO_PENDING != 1 {
+                IO_PROTOCOL_OK = 0; // a block load must be preceded by exactly one absolute seek
+            }
+            IO_PENDING = 0;
         }
-        t.pending_seeks = 0;
         let be = self.pos.to_be_bytes();
         let mut i = 0;
         while i < 8 {
@@ -374,16 +384,17 @@ impl Read for ModelFile {
 impl Seek for ModelFile {
     fn seek(&mut self, to: SeekFrom) -> io::Result<u64> {
         io_event()?;
-        let t = t();
-        t.seeks += 1;
-        t.pending_seeks += 1;
+        unsafe {
+            IO_SEEKS += 1;
+            IO_PENDING += 1;
+        }
         match to {
             SeekFrom::Start(p) => {
                 self.pos = p;
             }
-            _ => {
-                t.protocol_ok = false; // the cursor glue only ever seeks absolutely
-            }
+            _ => unsafe {
+                IO_PROTOCOL_OK = 0; // the cursor glue only ever seeks absolutely
+            },
         }
         Ok(self.pos)
     }
